@@ -85,18 +85,20 @@ Definition created_file g id := {| g_busy := g_busy g; g_tracts := g_tracts g;
 Definition g0 : gst := {| g_busy := []; g_tracts := []; g_files := []; g_nextfd := 1; g_opens := 0; g_closes := 0 |}.
 
 (* ---------- operations ---------- *)
-Inductive kind := KCreate | KWrite | KRead | KStat | KSetVersion | KPull | KGCOld | KGCGone | KCheck.
+Inductive kind := KCreate | KWrite | KRead | KStat | KSetVersion | KPull | KGCOld | KGCGone | KCheck | KPack | KScrub.
 
-Record opd := { o_kind : kind; o_tract : Z; o_a1 : Z; o_a2 : Z; o_a3 : Z; o_data : list Z; o_srcs : list (Z * list Z) }.
+(* o_pack (PackTracts): per source tract (offset, expected length, replies of its From hosts in order (err, data)) *)
+Record opd := { o_kind : kind; o_tract : Z; o_a1 : Z; o_a2 : Z; o_a3 : Z; o_data : list Z; o_srcs : list (Z * list Z);
+                o_pack : list (Z * Z * list (Z * list Z)) }.
 
 Definition lock_mode (k : kind) : mode :=
   match k with
   | KCreate | KWrite | KSetVersion | KGCOld => MW
-  | KPull => MLW
-  | KRead | KStat | KCheck | KGCGone => MR   (* GCGone takes no lock at all; value unused *)
+  | KPull | KPack => MLW
+  | KRead | KStat | KCheck | KScrub | KGCGone => MR   (* GCGone takes no lock at all; value unused *)
   end.
 
-Definition is_reader (k : kind) : bool := match k with KRead | KStat | KCheck => true | _ => false end.
+Definition is_reader (k : kind) : bool := match k with KRead | KStat | KCheck | KScrub => true | _ => false end.
 
 Inductive pc :=
 | PStart | PLock
@@ -104,28 +106,31 @@ Inductive pc :=
 | PRmLookup | PRmDelete | PRmMapdel
 | PCtlRead | PCLookup | PCOpen | PCSetver | PCWrite | PCClose | PCFinish | PCDelete
 | PPullLoop | PPullEval
+| PPackLoop | PPackRead | PPackWrite | PPackPad | PPackPadWrite
+| PScrub
 | PUnlock | PDone | PCrash.
 
 (* the errTract and the other locals of an operation *)
 Record loc := {
   l_opened : bool; l_fd : Z; l_err : Z; l_v : Z; l_stamp : Z; l_buf : list Z; l_size : Z;
-  l_src : nat; l_ret : Z; l_k : Z; l_res : list Z
+  l_src : nat; l_from : nat; l_ret : Z; l_k : Z; l_res : list Z
 }.
 Definition loc0 : loc := {| l_opened := false; l_fd := 0; l_err := 0; l_v := 0; l_stamp := -1; l_buf := []; l_size := 0;
-                            l_src := O; l_ret := 0; l_k := 0; l_res := [] |}.
+                            l_src := O; l_from := O; l_ret := 0; l_k := 0; l_res := [] |}.
 
-Definition set_err l e := {| l_opened := l_opened l; l_fd := l_fd l; l_err := e; l_v := l_v l; l_stamp := l_stamp l; l_buf := l_buf l; l_size := l_size l; l_src := l_src l; l_ret := l_ret l; l_k := l_k l; l_res := l_res l |}.
-Definition set_v l v := {| l_opened := l_opened l; l_fd := l_fd l; l_err := l_err l; l_v := v; l_stamp := l_stamp l; l_buf := l_buf l; l_size := l_size l; l_src := l_src l; l_ret := l_ret l; l_k := l_k l; l_res := l_res l |}.
-Definition set_buf l b := {| l_opened := l_opened l; l_fd := l_fd l; l_err := l_err l; l_v := l_v l; l_stamp := l_stamp l; l_buf := b; l_size := l_size l; l_src := l_src l; l_ret := l_ret l; l_k := l_k l; l_res := l_res l |}.
-Definition set_size l n := {| l_opened := l_opened l; l_fd := l_fd l; l_err := l_err l; l_v := l_v l; l_stamp := l_stamp l; l_buf := l_buf l; l_size := n; l_src := l_src l; l_ret := l_ret l; l_k := l_k l; l_res := l_res l |}.
-Definition set_src l n := {| l_opened := l_opened l; l_fd := l_fd l; l_err := l_err l; l_v := l_v l; l_stamp := l_stamp l; l_buf := l_buf l; l_size := l_size l; l_src := n; l_ret := l_ret l; l_k := l_k l; l_res := l_res l |}.
-Definition set_ret l r := {| l_opened := l_opened l; l_fd := l_fd l; l_err := l_err l; l_v := l_v l; l_stamp := l_stamp l; l_buf := l_buf l; l_size := l_size l; l_src := l_src l; l_ret := r; l_k := l_k l; l_res := l_res l |}.
-Definition set_k l k := {| l_opened := l_opened l; l_fd := l_fd l; l_err := l_err l; l_v := l_v l; l_stamp := l_stamp l; l_buf := l_buf l; l_size := l_size l; l_src := l_src l; l_ret := l_ret l; l_k := k; l_res := l_res l |}.
-Definition set_res l r := {| l_opened := l_opened l; l_fd := l_fd l; l_err := l_err l; l_v := l_v l; l_stamp := l_stamp l; l_buf := l_buf l; l_size := l_size l; l_src := l_src l; l_ret := l_ret l; l_k := l_k l; l_res := r |}.
+Definition set_err l e := {| l_opened := l_opened l; l_fd := l_fd l; l_err := e; l_v := l_v l; l_stamp := l_stamp l; l_buf := l_buf l; l_size := l_size l; l_src := l_src l; l_from := l_from l; l_ret := l_ret l; l_k := l_k l; l_res := l_res l |}.
+Definition set_v l v := {| l_opened := l_opened l; l_fd := l_fd l; l_err := l_err l; l_v := v; l_stamp := l_stamp l; l_buf := l_buf l; l_size := l_size l; l_src := l_src l; l_from := l_from l; l_ret := l_ret l; l_k := l_k l; l_res := l_res l |}.
+Definition set_buf l b := {| l_opened := l_opened l; l_fd := l_fd l; l_err := l_err l; l_v := l_v l; l_stamp := l_stamp l; l_buf := b; l_size := l_size l; l_src := l_src l; l_from := l_from l; l_ret := l_ret l; l_k := l_k l; l_res := l_res l |}.
+Definition set_size l n := {| l_opened := l_opened l; l_fd := l_fd l; l_err := l_err l; l_v := l_v l; l_stamp := l_stamp l; l_buf := l_buf l; l_size := n; l_src := l_src l; l_from := l_from l; l_ret := l_ret l; l_k := l_k l; l_res := l_res l |}.
+Definition set_src l n := {| l_opened := l_opened l; l_fd := l_fd l; l_err := l_err l; l_v := l_v l; l_stamp := l_stamp l; l_buf := l_buf l; l_size := l_size l; l_src := n; l_from := O; l_ret := l_ret l; l_k := l_k l; l_res := l_res l |}.
+Definition set_ret l r := {| l_opened := l_opened l; l_fd := l_fd l; l_err := l_err l; l_v := l_v l; l_stamp := l_stamp l; l_buf := l_buf l; l_size := l_size l; l_src := l_src l; l_from := l_from l; l_ret := r; l_k := l_k l; l_res := l_res l |}.
+Definition set_from l n := {| l_opened := l_opened l; l_fd := l_fd l; l_err := l_err l; l_v := l_v l; l_stamp := l_stamp l; l_buf := l_buf l; l_size := l_size l; l_src := l_src l; l_from := n; l_ret := l_ret l; l_k := l_k l; l_res := l_res l |}.
+Definition set_k l k := {| l_opened := l_opened l; l_fd := l_fd l; l_err := l_err l; l_v := l_v l; l_stamp := l_stamp l; l_buf := l_buf l; l_size := l_size l; l_src := l_src l; l_from := l_from l; l_ret := l_ret l; l_k := k; l_res := l_res l |}.
+Definition set_res l r := {| l_opened := l_opened l; l_fd := l_fd l; l_err := l_err l; l_v := l_v l; l_stamp := l_stamp l; l_buf := l_buf l; l_size := l_size l; l_src := l_src l; l_from := l_from l; l_ret := l_ret l; l_k := l_k l; l_res := r |}.
 (* a fresh errTract: not opened, given error, given stamp *)
-Definition fresh_t l e st := {| l_opened := false; l_fd := 0; l_err := e; l_v := 0; l_stamp := st; l_buf := l_buf l; l_size := 0; l_src := l_src l; l_ret := l_ret l; l_k := 0; l_res := l_res l |}.
-Definition set_open l fd := {| l_opened := true; l_fd := fd; l_err := l_err l; l_v := l_v l; l_stamp := l_stamp l; l_buf := l_buf l; l_size := l_size l; l_src := l_src l; l_ret := l_ret l; l_k := l_k l; l_res := l_res l |}.
-Definition set_closed l := {| l_opened := false; l_fd := l_fd l; l_err := l_err l; l_v := l_v l; l_stamp := l_stamp l; l_buf := l_buf l; l_size := l_size l; l_src := l_src l; l_ret := l_ret l; l_k := l_k l; l_res := l_res l |}.
+Definition fresh_t l e st := {| l_opened := false; l_fd := 0; l_err := e; l_v := 0; l_stamp := st; l_buf := l_buf l; l_size := 0; l_src := l_src l; l_from := l_from l; l_ret := l_ret l; l_k := 0; l_res := l_res l |}.
+Definition set_open l fd := {| l_opened := true; l_fd := fd; l_err := l_err l; l_v := l_v l; l_stamp := l_stamp l; l_buf := l_buf l; l_size := l_size l; l_src := l_src l; l_from := l_from l; l_ret := l_ret l; l_k := l_k l; l_res := l_res l |}.
+Definition set_closed l := {| l_opened := false; l_fd := l_fd l; l_err := l_err l; l_v := l_v l; l_stamp := l_stamp l; l_buf := l_buf l; l_size := l_size l; l_src := l_src l; l_from := l_from l; l_ret := l_ret l; l_k := l_k l; l_res := l_res l |}.
 
 Definition noerr (l : loc) : bool := l_err l =? c18_e_NoError.
 
@@ -148,13 +153,16 @@ Definition write_at (d : list Z) (off : Z) (b : list Z) : list Z :=
 (* MemDisk.Read: copy(b, file[off:]) with len(b) = len *)
 Definition read_at (d : list Z) (off len : Z) : list Z := firstn (Z.to_nat len) (skipn (Z.to_nat off) d).
 
-Definition w_version (o : opd) : Z := match o_kind o with KCreate => 1 | _ => o_a1 o end.
+(* tract ids >= 100 stand for RS chunk tracts (id.Blob.Partition().Type() == RSPartition) *)
+Definition is_rs (id : Z) : bool := 100 <=? id.
+Definition initial_version (o : opd) : Z := if is_rs (o_tract o) then c18_RSChunkVersion else 1.
+Definition w_version (o : opd) : Z := match o_kind o with KCreate => initial_version o | _ => o_a1 o end.
 Definition w_off (o : opd) : Z := match o_kind o with KCreate => o_a1 o | _ => o_a2 o end.
-Definition c_version (o : opd) : Z := match o_kind o with KCreate => 1 | _ => o_a1 o end.
+Definition c_version (o : opd) : Z := match o_kind o with KCreate => initial_version o | KPack => c18_RSChunkVersion | _ => o_a1 o end.
 
 (* Disk call kinds of the wire *)
 Definition CK_Open := 1. Definition CK_Close := 2. Definition CK_Write := 3. Definition CK_Read := 4.
-Definition CK_Size := 5. Definition CK_Delete := 6. Definition CK_Getx := 7. Definition CK_Setx := 8. Definition CK_CtlRead := 9.
+Definition CK_Size := 5. Definition CK_Delete := 6. Definition CK_Getx := 7. Definition CK_Setx := 8. Definition CK_CtlRead := 9. Definition CK_Scrub := 10.
 
 (* the Disk call the operation is about to make (0: the next step is silent) *)
 Definition pending_call (p : pc) (l : loc) : Z :=
@@ -167,7 +175,9 @@ Definition pending_call (p : pc) (l : loc) : Z :=
   | PSize => if noerr l then CK_Size else 0
   | PClose | PCClose => if l_opened l then CK_Close else 0
   | PRmDelete | PCDelete => CK_Delete
-  | PCtlRead => CK_CtlRead
+  | PCtlRead | PPackRead => CK_CtlRead
+  | PPackWrite | PPackPadWrite => if noerr l then CK_Write else 0
+  | PScrub => CK_Scrub
   | _ => 0
   end.
 
@@ -179,6 +189,7 @@ Definition busy_result (k : kind) : list Z :=
   | KSetVersion => [c18_e_TooBusy; 0]
   | KCheck => [0]
   | KGCGone => []
+  | KScrub => [-1]
   | _ => [c18_e_TooBusy]
   end.
 
@@ -196,6 +207,7 @@ Definition rm_cont (o : opd) (g : gst) (l : loc) (e : Z) : gst * pc * loc :=
   match o_kind o with
   | KGCGone => (g, PDone, set_res l [])
   | KGCOld => (g, PUnlock, set_res l [e])
+  | KPack => if negb (e =? c18_e_NoError) then (g, PUnlock, set_res l [e]) else (g, PCOpen, l)
   | _ => if l_k l =? 3 then (g, PPullEval, l)
          else if negb (e =? c18_e_NoError) then (g, PPullEval, set_ret l e)
          else (g, PCtlRead, l)
@@ -206,13 +218,30 @@ Definition create_cont (o : opd) (g : gst) (l : loc) : gst * pc * loc :=
   let r := l_err l in
   match o_kind o with
   | KCreate => if r =? c18_e_AlreadyExists then (g, PLookup, l) else (g, PUnlock, set_res l [r])
+  | KPack => (g, PUnlock, set_res l [r])
   | _ => if negb (r =? c18_e_NoError) then (g, PRmLookup, set_k (set_ret l r) 3) else (g, PPullEval, set_ret l r)
   end.
+
+(* checkTractSpec: sources in order, not overlapping, each with at least one host, inside the total length *)
+Fixpoint check_spec_from (srcs : list (Z * Z * list (Z * list Z))) (e : Z) (length_ : Z) : bool :=
+  match srcs with
+  | [] => negb (length_ <? e)
+  | (off, len, froms) :: r =>
+      match froms with
+      | [] => false
+      | _ => if off <? e then false else check_spec_from r (off + len) length_
+      end
+  end.
+Definition check_spec (srcs : list (Z * Z * list (Z * list Z))) (length_ : Z) : bool := check_spec_from srcs 0 length_.
+(* Offset+Length of the last source, -1 without sources *)
+Definition pack_lastpos (srcs : list (Z * Z * list (Z * list Z))) : Z :=
+  match rev srcs with (off, len, _) :: _ => off + len | [] => -1 end.
 
 (* program points that mutate the disk or the tract map; never reached by Read/Stat/Check *)
 Definition wr_pc (p : pc) : bool :=
   match p with
-  | PSetver | PWrite | PCOpen | PCSetver | PCWrite | PCFinish | PCDelete | PRmDelete | PRmMapdel => true
+  | PSetver | PWrite | PCOpen | PCSetver | PCWrite | PCFinish | PCDelete | PRmDelete | PRmMapdel
+  | PPackWrite | PPackPadWrite => true
   | _ => false
   end.
 
@@ -228,6 +257,7 @@ Definition step (V : variant) (g : gst) (o : opd) (p : pc) (l : loc) (inj : Z) :
       match k with
       | KSetVersion => if o_a1 o <=? 1 then Some (g, PDone, set_res l [c18_e_BadVersion; 0]) else Some (g, PLock, l)
       | KGCGone => Some (g, PRmLookup, l)
+      | KPack => if check_spec (o_pack o) (o_a1 o) then Some (g, PLock, l) else Some (g, PDone, set_res l [c18_e_InvalidArgument])
       | _ => Some (g, PLock, l)
       end
   | PLock =>
@@ -235,7 +265,7 @@ Definition step (V : variant) (g : gst) (o : opd) (p : pc) (l : loc) (inj : Z) :
       match try_lock_once V (g_busy g) id (lock_mode k) with
       | (b, true, _) =>
           Some (with_busy g b,
-                match k with KCreate => PCLookup | KPull => PPullLoop | _ => PLookup end, l)
+                match k with KCreate => PCLookup | KPull => PPullLoop | KPack => PRmLookup | KScrub => PScrub | _ => PLookup end, l)
       | (_, false, true) => None
       | (_, false, false) => Some (g, PDone, set_res l (busy_result k))
       end end
@@ -343,7 +373,7 @@ Definition step (V : variant) (g : gst) (o : opd) (p : pc) (l : loc) (inj : Z) :
       | KPull =>
           if (e =? c18_e_NoError) && (o_a1 o <? l_v l1) then Some (g1, PPullEval, set_ret l1 c18_e_InvalidState)
           else Some (g1, PRmLookup, set_k l1 2)
-      | KGCGone => Some (g1, PUnlock, l1)
+      | KGCGone | KPack | KScrub => Some (g1, PUnlock, l1)
       end
   | PRmLookup =>
       match get id (g_tracts g) with
@@ -377,13 +407,14 @@ Definition step (V : variant) (g : gst) (o : opd) (p : pc) (l : loc) (inj : Z) :
            | None => Some (created_file g id, PCSetver, set_open l0 (g_nextfd g))
            end
   | PCSetver =>
+      let nxt := match k with KPack => PPackLoop | _ => PCWrite end in
       if noerr l then
-        if negb (inj =? 0) then Some (g, PCWrite, set_err l inj)
+        if negb (inj =? 0) then Some (g, nxt, set_err l inj)
         else match handle_file g id l with
-             | None => Some (g, PCWrite, set_err l c18_e_InvalidArgument)
-             | Some f => Some (with_files g (set id {| f_fd := f_fd f; f_ver := Some (c_version o); f_data := f_data f |} (g_files g)), PCWrite, l)
+             | None => Some (g, nxt, set_err l c18_e_InvalidArgument)
+             | Some f => Some (with_files g (set id {| f_fd := f_fd f; f_ver := Some (c_version o); f_data := f_data f |} (g_files g)), nxt, l)
              end
-      else Some (g, PCWrite, l)
+      else Some (g, nxt, l)
   | PCWrite =>
       if noerr l then
         if negb (inj =? 0) then Some (g, PCClose, set_err l inj)
@@ -401,6 +432,58 @@ Definition step (V : variant) (g : gst) (o : opd) (p : pc) (l : loc) (inj : Z) :
   | PCDelete =>
       if negb (inj =? 0) then Some (create_cont o g l)
       else Some (create_cont o (with_files g (del id (g_files g))) l)
+  (* PackTracts: the SourceLoop over srcs and their From hosts, the padding write *)
+  | PPackLoop =>
+      if negb (noerr l) then Some (g, PPackPad, l)
+      else match nth_error (o_pack o) (l_src l) with
+           | None => Some (g, PPackPad, l)
+           | Some (_, _, froms) =>
+               if Nat.ltb (l_from l) (length froms) then Some (g, PPackRead, l)
+               else Some (g, PPackLoop, set_err (set_src l (S (l_src l))) c18_e_RPC)   (* no host delivered: t.err = ErrRPC *)
+           end
+  | PPackRead =>
+      match nth_error (o_pack o) (l_src l) with
+      | Some (_, len, froms) =>
+          match nth_error froms (l_from l) with
+          | Some (e, d) =>
+              if ((e =? c18_e_NoError) || (e =? c18_e_EOF)) && (Z.of_nat (length d) =? len)
+              then Some (g, PPackWrite, set_buf l d)
+              else Some (g, PPackLoop, set_from l (S (l_from l)))
+          | None => Some (g, PPackLoop, set_from l (S (l_from l)))
+          end
+      | None => Some (g, PPackPad, l)
+      end
+  | PPackWrite =>
+      let l2 := set_src l (S (l_src l)) in
+      if noerr l then
+        if negb (inj =? 0) then Some (g, PPackLoop, set_err l2 inj)
+        else match handle_file g id l with
+             | None => Some (g, PPackLoop, set_err l2 c18_e_InvalidArgument)
+             | Some f =>
+                 let off := match nth_error (o_pack o) (l_src l) with Some (off, _, _) => off | None => 0 end in
+                 Some (with_files g (set id {| f_fd := f_fd f; f_ver := f_ver f; f_data := write_at (f_data f) off (l_buf l) |} (g_files g)), PPackLoop, l2)
+             end
+      else Some (g, PPackLoop, l2)
+  | PPackPad =>
+      if negb (pack_lastpos (o_pack o) =? -1) && (pack_lastpos (o_pack o) <? o_a1 o) && noerr l
+      then Some (g, PPackPadWrite, l) else Some (g, PCClose, l)
+  | PPackPadWrite =>
+      if noerr l then
+        if negb (inj =? 0) then Some (g, PCClose, set_err l inj)
+        else match handle_file g id l with
+             | None => Some (g, PCClose, set_err l c18_e_InvalidArgument)
+             | Some f =>
+                 let lp := pack_lastpos (o_pack o) in
+                 Some (with_files g (set id {| f_fd := f_fd f; f_ver := f_ver f; f_data := write_at (f_data f) lp (zeros (Z.to_nat (o_a1 o - lp))) |} (g_files g)), PCClose, l)
+             end
+      else Some (g, PCClose, l)
+  (* one iteration of scrubDisk's inner loop: Scrub under the READ lock *)
+  | PScrub =>
+      if negb (inj =? 0) then Some (g, PUnlock, set_res l [inj; 0])
+      else match get id (g_files g) with
+           | Some f => Some (g, PUnlock, set_res l [c18_e_NoError; Z.of_nat (length (f_data f))])
+           | None => Some (g, PUnlock, set_res l [c18_e_InvalidArgument; 0])
+           end
   | PPullLoop =>
       if Nat.ltb (l_src l) (length (o_srcs o)) then Some (g, PLookup, l)
       else Some (g, PUnlock, set_res l [l_ret l])
@@ -541,13 +624,14 @@ Definition scan_tract (g : gst) (k : Z) : list Z :=
    | None => [0; 0; 0; 0]
    end).
 
-Definition scan (ntr : nat) (g : gst) : list Z := flat_map (fun k => scan_tract g (Z.of_nat k)) (seq 0 ntr).
+Definition scan (ids : list Z) (g : gst) : list Z := flat_map (scan_tract g) ids.
 
 (* ---------- wire ---------- *)
 Definition kind_of (z : Z) : option kind :=
   match z with
   | 1 => Some KCreate | 2 => Some KWrite | 3 => Some KRead | 4 => Some KStat | 5 => Some KSetVersion
-  | 6 => Some KPull | 7 => Some KGCOld | 8 => Some KGCGone | 9 => Some KCheck | _ => None
+  | 6 => Some KPull | 7 => Some KGCOld | 8 => Some KGCGone | 9 => Some KCheck
+  | 10 => Some KPack | 11 => Some KScrub | _ => None
   end.
 
 Fixpoint take_srcs (n : nat) (l : list Z) : option (list (Z * list Z)) :=
@@ -567,6 +651,42 @@ Fixpoint take_srcs (n : nat) (l : list Z) : option (list (Z * list Z)) :=
       end
   end.
 
+(* n replies (err len bytes...) then the rest *)
+Fixpoint take_replies (n : nat) (l : list Z) : option (list (Z * list Z) * list Z) :=
+  match n with
+  | O => Some ([], l)
+  | S n' =>
+      match l with
+      | e :: len :: r =>
+          let k := Z.to_nat len in
+          if Nat.leb k (length r) then
+            match take_replies n' (skipn k r) with
+            | Some (ss, rest) => Some ((e, firstn k r) :: ss, rest)
+            | None => None
+            end
+          else None
+      | _ => None
+      end
+  end.
+(* n pack sources: off len nfrom replies... *)
+Fixpoint take_pack (n : nat) (l : list Z) : option (list (Z * Z * list (Z * list Z)) * list Z) :=
+  match n with
+  | O => Some ([], l)
+  | S n' =>
+      match l with
+      | off :: len :: nf :: r =>
+          match take_replies (Z.to_nat nf) r with
+          | Some (fs, r2) =>
+              match take_pack n' r2 with
+              | Some (ps, rest) => Some ((off, len, fs) :: ps, rest)
+              | None => None
+              end
+          | None => None
+          end
+      | _ => None
+      end
+  end.
+
 (* kind tract a1 a2 a3 n x1..xn rest *)
 Definition decode_op (l : list Z) : option (opd * list Z) :=
   match l with
@@ -580,12 +700,20 @@ Definition decode_op (l : list Z) : option (opd * list Z) :=
         | Some KPull =>
             match xs with
             | ns :: ys => match take_srcs (Z.to_nat ns) ys with
-                          | Some ss => Some ({| o_kind := KPull; o_tract := tr; o_a1 := a1; o_a2 := a2; o_a3 := a3; o_data := []; o_srcs := ss |}, rest)
+                          | Some ss => Some ({| o_kind := KPull; o_tract := tr; o_a1 := a1; o_a2 := a2; o_a3 := a3; o_data := []; o_srcs := ss; o_pack := [] |}, rest)
                           | None => None
                           end
             | [] => None
             end
-        | Some k => Some ({| o_kind := k; o_tract := tr; o_a1 := a1; o_a2 := a2; o_a3 := a3; o_data := xs; o_srcs := [] |}, rest)
+        | Some KPack =>
+            match xs with
+            | ns :: ys => match take_pack (Z.to_nat ns) ys with
+                          | Some (ps, []) => Some ({| o_kind := KPack; o_tract := tr; o_a1 := a1; o_a2 := a2; o_a3 := a3; o_data := []; o_srcs := []; o_pack := ps |}, rest)
+                          | _ => None
+                          end
+            | [] => None
+            end
+        | Some k => Some ({| o_kind := k; o_tract := tr; o_a1 := a1; o_a2 := a2; o_a3 := a3; o_data := xs; o_srcs := []; o_pack := [] |}, rest)
         end
       else None
   | _ => None
@@ -652,8 +780,11 @@ Definition step_line (c : cstate) (op : list Z) : cstate * list Z :=
       end
   | 11 :: tid :: inj :: obs =>                       (* release the parked Disk call of operation tid *)
       sys_line c (fun V => move V (c_sys c) (Z.to_nat tid) inj) obs
-  | 21 :: ntr :: obs =>
-      let exp := scan (Z.to_nat ntr) (fst (c_sys c)) in
+  | 21 :: ntr :: r =>                                (* scan of the listed tracts *)
+      let n := Z.to_nat ntr in
+      let ids := firstn n r in
+      let obs := skipn n r in
+      let exp := scan ids (fst (c_sys c)) in
       (c, if list_eqb exp obs then [777; 1] else (-2) :: exp)
   | [30; req; ok; openfiles] =>
       let nf := mgr_step repaired (c_mgr c) req in
